@@ -97,6 +97,59 @@ theorem C10_collect_nonempty (o : Oracle) (subject : String) (i : Nat) (arms : L
               have : m.2 - idx = (m.2 - (idx + 1)) + 1 := by omega
               rw [this, List.getElem?_cons_succ]; exact h4
 
+/-- **no arm is left out.** At every restart offset, every arm whose regex matches the rest of the string is among the
+candidates, with that match and its own index — whatever happened at earlier offsets (the candidates at an offset are a
+function of the arms, the text and the offset alone: an arm that found nothing at an earlier offset is searched again). -/
+theorem C10_collect_complete (o : Oracle) (subject : String) (i : Nat) (arms : List (String × List Stmt × Loc))
+    (idx : Nat) (ms : List (RMatch × Nat)) (h : scanCollect o subject i arms idx = .ok ms)
+    (k : Nat) (re : String) (body : List Stmt) (loc : Loc) (m : RMatch)
+    (harm : arms[k]? = some (re, body, loc)) (hm : o.regexAt re subject i = some (some m)) :
+    (m, idx + k) ∈ ms := by
+  induction arms generalizing idx ms k with
+  | nil => simp at harm
+  | cons arm rest ih =>
+    obtain ⟨re0, body0, loc0⟩ := arm
+    simp only [scanCollect] at h
+    cases ho : o.regexAt re0 subject i with
+    | none => simp [ho] at h
+    | some r =>
+      cases r with
+      | none =>
+        simp only [ho] at h
+        cases k with
+        | zero =>
+          simp only [List.getElem?_cons_zero, Option.some.injEq, Prod.mk.injEq] at harm
+          obtain ⟨rfl, _, _⟩ := harm
+          rw [ho] at hm; cases hm
+        | succ k' =>
+          simp only [List.getElem?_cons_succ] at harm
+          have := ih (idx + 1) ms h k' harm
+          have e : idx + (k' + 1) = idx + 1 + k' := by omega
+          rw [e]; exact this
+      | some m0 =>
+        simp only [ho] at h
+        by_cases hm0 : m0.stop ≤ m0.start
+        · simp [hm0] at h
+        · simp only [hm0, if_false] at h
+          cases hr : scanCollect o subject i rest (idx + 1) with
+          | error e => simp [hr] at h
+          | ok ms' =>
+            simp [hr] at h
+            subst h
+            cases k with
+            | zero =>
+              simp only [List.getElem?_cons_zero, Option.some.injEq, Prod.mk.injEq] at harm
+              obtain ⟨rfl, _, _⟩ := harm
+              rw [ho] at hm
+              simp only [Option.some.injEq] at hm
+              subst hm
+              simp
+            | succ k' =>
+              simp only [List.getElem?_cons_succ] at harm
+              have := ih (idx + 1) ms' hr k' harm
+              have e : idx + (k' + 1) = idx + 1 + k' := by omega
+              rw [e]; exact List.mem_cons_of_mem _ this
+
 /-- a regex whose first match from the current offset is empty raises `EmptyRegexCapture` -/
 theorem C10_empty_match_is_error (o : Oracle) (subject : String) (i : Nat) (re : String) (body : List Stmt) (loc : Loc)
     (rest : List (String × List Stmt × Loc)) (idx : Nat) (m : RMatch)
